@@ -30,6 +30,6 @@ def run(rep, tier, seed):
     D.run_contracts(rep, "C07", D.PART_HEUR + D.FIT + D.COVER + D.TQ, tier, with_lemmas=False, only_tagged=True)
     D.run_contracts(rep, "C07", D.exact() + D.CBLDM, "lite" if tier == "quick" else tier, only_tagged=True)       # only their opacity obligations are claimed here
     D.run_contracts(rep, "C07", D.adaptors(), tier, only_tagged=True)
-    D.run_static(rep, "C07", ("purity",))      # every per-call contract presupposes that results are functions of the arguments
+    D.run_static(rep, "C07", ("purity", "opacity"))      # every per-call contract presupposes that results are functions of the arguments
     t3(rep, tier, seed)
     D.link_falsifier(rep)
